@@ -35,7 +35,7 @@ sys.setrecursionlimit(20000)
 
 UNROLL = 9          # loop iterations followed path-sensitively before switching to fixpoint mode
 MAX_UNROLL_STATES = 96
-MAX_FIX_ITERS = 12
+MAX_FIX_ITERS = 16
 MAX_DEPTH = 40      # call-inlining depth
 MAX_REC = 4         # same instance on the stack
 
@@ -123,6 +123,8 @@ class Interp:
         self.oid = 0
         self._loops = {}
         self._thresholds = {}
+        self._live = {}
+        self._no_unroll = set()
         self.extern = {}         # def path -> summary fn (filled by stdsum)
         self.contracts = {}      # (trait, method) -> summary fn for calls on type parameters
         self.on_call = []        # hooks(interp, frame, term, st, callee_name, args)
@@ -130,9 +132,14 @@ class Interp:
         self.on_return = []      # hooks(interp, frame, st, val)
         self.join_exits = join_exits or (lambda body: False)
         self.stack = []          # def names of active frames
+        self.istack = []         # instance keys of active frames
         self.visited = {}        # instance key -> count
         self.impl_index = None
         self.join_threshold = 6  # callee exits are joined per outcome class when there are more outcomes than this
+        self.settled = set()     # obligation sites settled at summary level
+        self.sum_stack = []      # summaries being computed (innermost last)
+        self.summaries = {}      # instance key -> Summary
+        self.summarizable = None # predicate(body): analyse via a function summary
         self.ts = None           # typestate hook object (engine.Analysis)
         self.opaque_fn = None    # predicate(callee json): treat the call as an opaque total function
         self.cparams = {}        # const generic name -> global symbol (shared by all states)
@@ -141,7 +148,9 @@ class Interp:
         stdsum.install(self)
 
     # =============================================================== logging
-    def oblige(self, kind, frame, bb, ok, detail="", st=None, label=""):
+    def oblige(self, kind, frame, bb, ok, detail="", st=None, label="", goal=None):
+        """record an obligation.  Inside a summary computation an undischarged obligation is *lifted*:
+        stored with the path condition and re-proved at every call site of the summary."""
         from ..facts import assert_site, call_site
         b = frame.body
         blk = b["blocks"][bb] if bb is not None else None
@@ -153,11 +162,34 @@ class Interp:
                 site = assert_site(b, t)
             elif t["k"] == "call":
                 site = call_site(b, t) + ((" " + label) if label else "")
-        self.log.append({
+        rec = {
             "t": "obl", "kind": kind, "fn": b["def"], "bb": bb, "file": sp["file"], "line": sp["line"],
             "ok": bool(ok), "detail": detail, "ctx": tuple(self.stack[-6:]), "site": site,
             "inst": self.inst_key(frame), "exp": sp.get("exp", False),
-        })
+        }
+        if not ok and self.sum_stack and st is not None and kind not in ("EXT",):
+            S = self.sum_stack[-1]
+            if goal is None:
+                goal = (("c", False), True)      # "this point is unreachable"
+            news = sorted(x for x in (set(st.rng) | set(st.sets) | {y for f in st.facts for y in f.syms()})
+                          if x >= S.mark1)
+            S.lifted.append({"snap": st.copy(), "goal": goal, "rec": rec, "news": news})
+            return
+        self.log.append(rec)
+
+    def emit_obligation(self, rec, ok, detail, st, L, goal=None):
+        """re-emit a lifted obligation in the context of a call site (possibly lifting it again)"""
+        rec = dict(rec)
+        rec["ok"] = bool(ok)
+        rec["detail"] = detail
+        rec["ctx"] = tuple(self.stack[-6:])
+        if not ok and self.sum_stack:
+            S = self.sum_stack[-1]
+            news = sorted(x for x in (set(st.rng) | set(st.sets) | {y for f in st.facts for y in f.syms()})
+                          if x >= S.mark1)
+            S.lifted.append({"snap": st.copy(), "goal": goal or (("c", False), True), "rec": rec, "news": news})
+            return
+        self.log.append(rec)
 
     def observe(self, rec):
         rec = dict(rec)
@@ -985,8 +1017,8 @@ class Interp:
             i = self.eval_operand(frame, t["index"], st)
             ln = self.eval_operand(frame, t["len"], st)
             detail = "index %s < len %s" % (st.describe(i.lin), st.describe(ln.lin))
-        self.oblige(kind, frame, bb, (not bad) or self.prove_bool(st, c.e, want), detail, st)
-        if ak == "Overflow":
+        self.oblige(kind, frame, bb, (not bad) or self.prove_bool(st, c.e, want), detail, st, goal=(c.e, want))
+        if ak == "Overflow" and self.log and self.log[-1].get("bb") == bb and self.log[-1].get("fn") == frame.body["def"]:
             self.log[-1]["r_hi"] = st.interval(r.lin)[1]
             self.log[-1]["r_lo"] = st.interval(r.lin)[0]
         good = self.branch(st, c.e, want)
@@ -1182,12 +1214,27 @@ class Interp:
         raise Unsupported("call of value %r" % (fv,))
 
     def call_local(self, frame, bb, st, body, env, args):
+        if self.summarizable is not None and self.summarizable(body):
+            from . import summary
+            if summary.summarizable_args(self, body, env):
+                key = self.inst_key(Frame(0, body, env, 0, None))
+                if not any(S.key == key for S in self.sum_stack):
+                    r = summary.call(self, frame, bb, st, body, env, args, key)
+                    if r is not None:
+                        self.visited[key] = self.visited.get(key, 0) + 1
+                        return r
+        return self.call_local_inline(frame, bb, st, body, env, args)
+
+    def call_local_inline(self, frame, bb, st, body, env, args, depth=None):
         name = body["def"]
-        if frame.depth >= MAX_DEPTH or self.stack.count(name) >= MAX_REC:
-            self.oblige("REC", frame, bb, False, "recursion/inlining budget exceeded calling " + name, st)
-            return []
+        fdepth = frame.depth if frame is not None else (depth or 0)
         self.fid += 1
-        fr = Frame(self.fid, body, env, frame.depth + 1, (frame.body["def"], bb))
+        fr = Frame(self.fid, body, env, fdepth + 1, (frame.body["def"], bb) if frame is not None else None)
+        ikey = self.inst_key(fr)
+        if fdepth >= MAX_DEPTH or self.istack.count(ikey) >= MAX_REC:
+            if frame is not None:
+                self.oblige("REC", frame, bb, False, "recursion/inlining budget exceeded calling " + name, st)
+            return []
         if len(args) != body["arg_count"]:
             # "rust-call" ABI of closures: last arg is a tuple to be spread
             if len(args) == 2 and isinstance(args[1], VAgg) and args[1].kind == "tuple" and \
@@ -1203,12 +1250,14 @@ class Interp:
             st.mem[("L", fr.fid, i + 1)] = a
         mark = len(self.tab.info)
         self.stack.append(name)
-        key = self.inst_key(fr)
+        self.istack.append(ikey)
+        key = ikey
         self.visited[key] = self.visited.get(key, 0) + 1
         try:
             outs = self.run_body_frames(fr, st)
         finally:
             self.stack.pop()
+            self.istack.pop()
         res = []
         for s2, val in outs:
             for i in range(len(body["locals"])):
@@ -1216,8 +1265,21 @@ class Interp:
             for h in self.on_return:
                 h(self, fr, s2, val)
             res.append((s2, val))
-        if len(res) > 1 and (self.join_exits(body) or len(res) > self.join_threshold):
-            res = self.join_outcomes(res, mark, args)
+        if (len(res) > 1 or self.sum_stack) and (self.join_exits(body) or len(res) > self.join_threshold):
+            # a symbolic boolean result is split into its two truth values so that callers (and summaries)
+            # keep the conditions under which it is true / false
+            split = []
+            for s2, val in res:
+                if isinstance(val, VBool) and val.e[0] != "c":
+                    for s3 in self.branch(s2, val.e, True):
+                        split.append((s3, TRUE))
+                    for s3 in self.branch(s2, val.e, False):
+                        split.append((s3, FALSE))
+                else:
+                    split.append((s2, val))
+            res = split
+            if len(res) > 1:
+                res = self.join_outcomes(res, mark, args)
         return res
 
     def outcome_key(self, st, v, depth=2):
@@ -1331,7 +1393,8 @@ class Interp:
         states = [st.copy()]
         exits, rets = [], []
         done = False
-        for _ in range(UNROLL + 1):
+        lkey = (fr.body["def"], fr.body.get("promoted"), head)
+        for _ in range(0 if lkey in self._no_unroll else UNROLL + 1):
             nxt = []
             for s in states:
                 r = self.run_region(fr, head, s, head, lbody)
@@ -1350,6 +1413,7 @@ class Interp:
                           "inst": self.inst_key(fr)})
             return exits, rets
         del self.log[mark:]
+        self._no_unroll.add(lkey)
         # ---- 2. fixpoint with join/widening at the head.  The head invariant is a disjunction keyed by the
         #         typestate signature (partition keys of the stateful objects reachable from the frame);
         #         those objects are summarised by their inferred object invariant.
@@ -1361,6 +1425,7 @@ class Interp:
 
         def add(stt, widen):
             ch = False
+            self.kill_dead(fr, head, stt)
             for s1 in self.ts_split(fr, stt):
                 sig = self.ts_sig(fr, s1)
                 old = sigstates.get(sig)
@@ -1368,7 +1433,8 @@ class Interp:
                     sigstates[sig] = s1
                     ch = True
                 else:
-                    new, c = join_into(self, old, s1, symmark, ("loop", fr.fid, head, sig), widen=widen, thresholds=th)
+                    new, c = join_into(self, old, s1, symmark, ("loop", fr.fid, head, sig), widen=bool(widen),
+                                       thresholds=(th if widen == 1 else None))
                     if c:
                         sigstates[sig] = new
                         ch = True
@@ -1387,7 +1453,7 @@ class Interp:
                 arrs.append((inv, r["arrive"]))
             for inv, arrive in arrs:
                 for a in arrive:
-                    if add(a, it >= 2):
+                    if add(a, 0 if it < 2 else (1 if it < 5 else 2)):
                         changed = True
             if not changed:
                 ms = [self.loop_measure(fr, inv, arrive) for inv, arrive in arrs]
@@ -1409,6 +1475,96 @@ class Interp:
         if self.ts is None:
             return ()
         return self.ts.signature(self, fr, st)
+
+    def liveness(self, body):
+        """(live_in: {bb: set(locals)}, address_taken: set(locals)) by backward dataflow over whole locals"""
+        key = (body["def"], body.get("promoted"))
+        r = self._live.get(key)
+        if r is not None:
+            return r
+        blocks = [b for b in body["blocks"] if not b["cleanup"]]
+        use = {}
+        defs = {}
+        addr = set()
+
+        def place_uses(p, acc, is_def=False):
+            for e in p["proj"]:
+                if e["k"] == "index":
+                    acc.add(e["local"])
+            if not is_def or p["proj"]:
+                acc.add(p["local"])
+
+        def op_uses(o, acc):
+            if isinstance(o, dict) and o.get("k") in ("copy", "move"):
+                place_uses(o["place"], acc)
+
+        for b in blocks:
+            u, d = set(), set()
+            def note_use(xs):
+                for x in xs:
+                    if x not in d:
+                        u.add(x)
+            for stt in b["stmts"]:
+                if stt["k"] != "assign":
+                    continue
+                rv = stt["rv"]
+                acc = set()
+                for kk in ("op", "l", "r", "x"):
+                    if kk in rv:
+                        op_uses(rv[kk], acc)
+                for o in rv.get("ops", []):
+                    op_uses(o, acc)
+                if "place" in rv:
+                    place_uses(rv["place"], acc)
+                    if rv["k"] in ("ref", "rawptr"):
+                        addr.add(rv["place"]["local"])
+                place_uses(stt["place"], acc, is_def=True)
+                note_use(acc)
+                if not stt["place"]["proj"]:
+                    d.add(stt["place"]["local"])
+            t = b["term"]
+            acc = set()
+            for kk in ("discr", "cond", "callee_op", "l", "r", "x", "index", "len"):
+                if kk in t:
+                    op_uses(t[kk], acc)
+            for a in t.get("args", []):
+                op_uses(a, acc)
+            if t["k"] == "drop":
+                place_uses(t["place"], acc)
+            if t["k"] == "return":
+                acc.add(0)
+            if "dest" in t:
+                place_uses(t["dest"], acc, is_def=True)
+            note_use(acc)
+            if "dest" in t and not t["dest"]["proj"]:
+                d.add(t["dest"]["local"])
+            use[b["idx"]] = u
+            defs[b["idx"]] = d
+        live_in = {b["idx"]: set() for b in blocks}
+        changed = True
+        while changed:
+            changed = False
+            for b in reversed(blocks):
+                out = set()
+                for sx in term_succs(b["term"]):
+                    out |= live_in.get(sx, set())
+                new = use[b["idx"]] | (out - defs[b["idx"]])
+                if new != live_in[b["idx"]]:
+                    live_in[b["idx"]] = new
+                    changed = True
+        r = (live_in, addr)
+        self._live[key] = r
+        return r
+
+    def kill_dead(self, fr, head, st):
+        live_in, addr = self.liveness(fr.body)
+        live = live_in.get(head, set())
+        for i in range(len(fr.body["locals"])):
+            if i not in live and i not in addr:
+                k = ("L", fr.fid, i)
+                if st.mem.get(k) is not None:
+                    st.mem[k] = None
+        return st
 
     def thresholds(self, body):
         """integer constants of a body (+-1): candidate bounds for threshold widening"""
